@@ -260,6 +260,8 @@ func init() {
 		}
 		if ok, why := unmarshalBlob(fr, "json", data, pt.Elem(), dst); ok {
 			return nilError()
+		} else if strings.HasPrefix(why, "jsonerr:") {
+			return errorValue(fr, strings.TrimPrefix(why, "jsonerr:"))
 		} else if why != "" {
 			panic(unsupported("json.Unmarshal: " + why))
 		}
